@@ -123,7 +123,8 @@ def DelIter (body : HUid → PUnit → M (ForInStep PUnit)) (f : FUid) (cfg : Fl
     ∃ s1 x1, body u PUnit.unit s = .ok (.yield PUnit.unit) s1 ∧
       FlowAt s1 f { i with heads := i.heads.filter (·.uid ≠ u) } x1 cfg ∧ x1.ctxOwner = x.ctxOwner ∧ x1.flowId = x.flowId ∧
       (∀ k, k ≠ (f, u) → reg s1.ixs.ix k = reg s.ixs.ix k) ∧ s1.r.nextUid = s.r.nextUid ∧
-      x1.forkUids = OMap.erase u x.forkUids
+      x1.forkUids = OMap.erase u x.forkUids ∧ (∀ k, k ≠ (f, u) → OMap.lookup k s1.r.hx = OMap.lookup k s.r.hx) ∧
+      s1.r.cleared = s.r.cleared
 
 theorem delLoop_spec (body : HUid → PUnit → M (ForInStep PUnit)) (f : FUid) (cfg : FlowCfg) (hiter : DelIter body f cfg) :
     ∀ (cs : List HUid) (s : VM) (i : Inst) (x : InstX), cs.Nodup → FlowAt s f i x cfg →
@@ -131,19 +132,20 @@ theorem delLoop_spec (body : HUid → PUnit → M (ForInStep PUnit)) (f : FUid) 
       ∃ s' x', forIn cs PUnit.unit body s = .ok PUnit.unit s' ∧
         FlowAt s' f { i with heads := i.heads.filter fun o => !cs.contains o.uid } x' cfg ∧
         x'.ctxOwner = x.ctxOwner ∧ x'.flowId = x.flowId ∧ s'.r.nextUid = s.r.nextUid ∧
-        x'.forkUids = cs.foldl (fun m c => OMap.erase c m) x.forkUids := by
+        x'.forkUids = cs.foldl (fun m c => OMap.erase c m) x.forkUids ∧
+        (∀ k, (∀ c ∈ cs, k ≠ (f, c)) → OMap.lookup k s'.r.hx = OMap.lookup k s.r.hx) ∧ s'.r.cleared = s.r.cleared := by
   intro cs
   induction cs with
   | nil =>
     intro s i x _ F _
-    refine ⟨s, x, rfl, ?_, rfl, rfl, rfl, rfl⟩
+    refine ⟨s, x, rfl, ?_, rfl, rfl, rfl, rfl, fun _ _ => rfl, rfl⟩
     have : ({ i with heads := i.heads.filter fun o => !([] : List HUid).contains o.uid } : Inst) = i := by
       cases i; simp
     rw [this]; exact F
   | cons u cs ih =>
     intro s i x hnd F hall
     obtain ⟨cd, hcd, hreg⟩ := hall u (by simp)
-    obtain ⟨s1, x1, hb, F1, ho1, hf1, hreg1, hn1, hfu1⟩ := hiter u s i x cd F hcd hreg
+    obtain ⟨s1, x1, hb, F1, ho1, hf1, hreg1, hn1, hfu1, hhx1, hcl1⟩ := hiter u s i x cd F hcd hreg
     have hnd' := List.nodup_cons.1 hnd
     have hall1 : ∀ c ∈ cs, ∃ cd, ({ i with heads := i.heads.filter (·.uid ≠ u) } : Inst).findHead c = some cd ∧
         (cd.status = .inactive → reg s1.ixs.ix (f, c) = none) := by
@@ -153,8 +155,9 @@ theorem delLoop_spec (body : HUid → PUnit → M (ForInStep PUnit)) (f : FUid) 
       refine ⟨cd', by rw [findHead_filter]; simp [hcu, hcd'], fun hin => ?_⟩
       rw [hreg1 (f, c) (by simp [hcu])]
       exact hreg' hin
-    obtain ⟨s', x', hrun, F', ho', hf', hn', hfu'⟩ := ih s1 _ x1 hnd'.2 F1 hall1
-    refine ⟨s', x', ?_, ?_, by rw [ho', ho1], by rw [hf', hf1], by rw [hn', hn1], by rw [hfu', hfu1]; rfl⟩
+    obtain ⟨s', x', hrun, F', ho', hf', hn', hfu', hhx', hcl'⟩ := ih s1 _ x1 hnd'.2 F1 hall1
+    refine ⟨s', x', ?_, ?_, by rw [ho', ho1], by rw [hf', hf1], by rw [hn', hn1], by rw [hfu', hfu1]; rfl,
+      fun k hk => by rw [hhx' k (fun c hc => hk c (by simp [hc])), hhx1 k (hk u (by simp))], by rw [hcl', hcl1]⟩
     · simp only [List.forIn_cons, bind, EStateM.bind, hb, hrun]
     · have : ({ i with heads := i.heads.filter fun o => !(u :: cs).contains o.uid } : Inst)
           = { ({ i with heads := i.heads.filter (·.uid ≠ u) } : Inst) with
@@ -286,7 +289,8 @@ theorem slideStep_merge_merging (fuel : Nat) (s : VM) (f : FUid) (h : HUid) (i :
     (hact : ∀ c ∈ cs, ∀ cd, i.findHead c = some cd → c ≠ h → cd.status ≠ .inactive) :
     ∃ s' i' x', slideStep (fuel + 2) f h s = .ok (false, [(f, r)]) s' ∧ FlowAt s' f i' x' cfg ∧ x'.ctxOwner = x.ctxOwner ∧
       hview i' = ((hview i).map (setCore r hd.pos .active)).filter (fun t => !cs.contains t.1) ∧
-      s'.r.nextUid = s.r.nextUid := by
+      s'.r.nextUid = s.r.nextUid ∧ i'.status = i.status ∧ s'.r.cleared = s.r.cleared ∧
+      ∃ y', OMap.lookup (f, r) s'.r.hx = some y' ∧ y'.catchLabels = ((OMap.lookup (f, h) s.r.hx).getD {}).catchLabels := by
   have hge : decide (hd.pos ≥ cfg.elements.size) = false := by simp; exact H.hlt
   unfold slideStep
   simp only [bind, EStateM.bind, cfgOfInst, getInstX, getInstX?, getRest, get, getThe, MonadStateOf.get, EStateM.get, pure, EStateM.pure,
@@ -392,7 +396,8 @@ theorem slideStep_merge_merging (fuel : Nat) (s : VM) (f : FUid) (h : HUid) (i :
       simp only []
       rw [applyOp_ok _ t hgd]
       simp only [modInstX, modifyRest, modify, modifyGet, MonadStateOf.modifyGet, EStateM.modifyGet]
-      refine ⟨_, { xt with forkUids := OMap.erase c xt.forkUids }, rfl, ?_, rfl, rfl, ?_, rfl, rfl⟩
+      refine ⟨_, { xt with forkUids := OMap.erase c xt.forkUids }, rfl, ?_, rfl, rfl, ?_, rfl, rfl,
+        fun k hk => by simp only [OMap.lookup_erase, hk, if_false], rfl⟩
       · exact { hi := findInst_delHead t.ixs.ix f c it Ft.hi, hx := lookup_modify_self f _ t.r.fx xt Ft.hx, hc := Ft.hc }
       · intro k _; rfl
     · obtain ⟨hgs, hss⟩ := setHeadStatus_inactive_ok t f c it cd Ft.hi hcd hin
@@ -405,7 +410,8 @@ theorem slideStep_merge_merging (fuel : Nat) (s : VM) (f : FUid) (h : HUid) (i :
       simp only []
       rw [applyOp_ok _ _ hgd]
       simp only [modInstX, modifyRest, modify, modifyGet, MonadStateOf.modifyGet, EStateM.modifyGet]
-      refine ⟨_, { xt with forkUids := OMap.erase c xt.forkUids }, rfl, ?_, rfl, rfl, ?_, rfl, rfl⟩
+      refine ⟨_, { xt with forkUids := OMap.erase c xt.forkUids }, rfl, ?_, rfl, rfl, ?_, rfl, rfl,
+        fun k hk => by simp only [OMap.lookup_erase, hk, if_false], rfl⟩
       · refine { hi := ?_, hx := lookup_modify_self f _ t.r.fx xt Ft.hx, hc := Ft.hc }
         have := findInst_delHead _ f c _ his
         rw [filter_modifyHead it c (fun y => { y with status := HeadStatus.inactive, elem := none }) (fun _ => rfl)] at this
@@ -420,6 +426,16 @@ theorem slideStep_merge_merging (fuel : Nat) (s : VM) (f : FUid) (h : HUid) (i :
   have e2 : s11.r.fx = s.r.fx := by rw [← hs11]
   have e3 : s11.r.prog = s.r.prog := by rw [← hs11]
   have e4 : s11.r.nextUid = s.r.nextUid := by rw [← hs11]
+  have e5 : s11.r.cleared = s.r.cleared := by rw [← hs11]
+  have e6 : ∃ y', OMap.lookup (f, r) s11.r.hx = some y' ∧ y'.catchLabels = ((OMap.lookup (f, h) s.r.hx).getD {}).catchLabels := by
+    rw [← hs11]
+    simp only [OMap.lookup_modify, if_true]
+    cases hlk0 : OMap.lookup (f, r) s.r.hx with
+    | none =>
+      rw [hlk0] at hcs
+      have : cs = [] := hcs.symm
+      rw [this] at hmem; cases hmem
+    | some y => exact ⟨_, rfl, rfl⟩
   have F11 : FlowAt s11 f _ x cfg := { hi := by rw [e1]; exact hi10, hx := by rw [e2]; exact H.hx, hc := by rw [e3]; exact H.hc }
   -- the children as the deletion loop finds them
   have hchildren : ∀ c ∈ cs, ∃ cd, (((i.modifyHead h fun y => { y with status := HeadStatus.inactive, elem := none }).modifyHead r
@@ -437,13 +453,19 @@ theorem slideStep_merge_merging (fuel : Nat) (s : VM) (f : FUid) (h : HUid) (i :
     · obtain ⟨cd, hcd⟩ := hex c hc
       rw [findHead_other i h c (fun y => { y with status := HeadStatus.inactive, elem := none }) (fun _ => rfl) hch]
       exact ⟨cd, hcd, fun hin => absurd hin (hact c hc cd hcd hch)⟩
-  obtain ⟨s12, x12, hrun, F12, ho12, hf12, hn12, hfu12⟩ := delLoop_spec body f cfg hiter cs s11 _ x hnd F11 hchildren
+  obtain ⟨s12, x12, hrun, F12, ho12, hf12, hn12, hfu12, hhx12, hcl12⟩ := delLoop_spec body f cfg hiter cs s11 _ x hnd F11 hchildren
   rw [hrun]
   have hlk : OMap.lookup u x12.forkUids = some r := by rw [hfu12, lookup_eraseAll u cs _ hucs]; exact hfu
   simp only [getInstX, getInstX?, getRest, bind, EStateM.bind, get, getThe, MonadStateOf.get, EStateM.get, pure, EStateM.pure, F12.hx, hlk,
     Option.isNone_some, Bool.false_eq_true, if_false, modInstX, modifyRest, modify, modifyGet, MonadStateOf.modifyGet, EStateM.modifyGet]
   refine ⟨_, _, { x12 with forkUids := OMap.erase u x12.forkUids }, rfl,
-    { hi := F12.hi, hx := lookup_modify_self f _ s12.r.fx x12 F12.hx, hc := F12.hc }, ho12, ?_, by rw [← e4]; exact hn12⟩
+    { hi := F12.hi, hx := lookup_modify_self f _ s12.r.fx x12 F12.hx, hc := F12.hc }, ho12, ?_, by rw [← e4]; exact hn12, rfl,
+    by rw [← e5]; exact hcl12, ?_⟩
+  rotate_left
+  · obtain ⟨y', hy1, hy2⟩ := e6
+    refine ⟨y', ?_, hy2⟩
+    show OMap.lookup (f, r) s12.r.hx = some y'
+    rw [hhx12 (f, r) (fun c hc e => hrcs (by cases e; exact hc))]; exact hy1
   rw [hview_filter, hview_setStatus, hview_setPos, hview_setStatus, List.map_map, List.map_map]
   apply filter_map_congr_uid
   · intro t; simp only [Function.comp, setStCore_fst, setPosCore_fst]
@@ -523,7 +545,8 @@ theorem and_clause_completes (fuel : Nat) (s : VM) (f : FUid) (i : Inst) (x : In
     (hleaf : ∀ c ∈ us.map (·.1), ((OMap.lookup (f, c) s.r.hx).getD {}).childHeadUids = [])
     (hmu : mu ∉ us.map (·.1)) (hfp : fp ≠ pe + 2) :
     ∃ s' i' x', slide (fuel + 4) f uj.1 s = .ok [(f, r)] s' ∧ FlowAt s' f i' x' cfg ∧ x'.ctxOwner = x.ctxOwner ∧
-      hview i' = [(r, pe + 2, HeadStatus.active)] ∧ s'.r.nextUid = s.r.nextUid := by
+      hview i' = [(r, pe + 2, HeadStatus.active)] ∧ s'.r.nextUid = s.r.nextUid ∧ i'.status = i.status ∧ s'.r.cleared = s.r.cleared ∧
+      ∃ y', OMap.lookup (f, r) s'.r.hx = some y' ∧ y'.catchLabels = ((OMap.lookup (f, uj.1) s.r.hx).getD {}).catchLabels := by
   have hndv : ((hview i).map (·.1)).Nodup := by
     rw [hv, List.map_cons, renderU_fst _ _ _ hlen]; exact hndu
   -- the merging head and the forking head
